@@ -8,6 +8,9 @@ COMMON_TRUST = [
     "Go runtime, OS, cgo libraries (RocksDB 7.8.3 here, not youzan's 6.4.6), gogo-protobuf, redcon: not modelled",
 ]
 
+DATA_RULE = "sessions of 30-200 redis commands (46 write, 39 read commands of the KV/hash/list/set/zset families incl. TTL commands) on a real KVNode (real leader-side handlers, real proposal path, real kvStoreSM/applyEntries, mem-btree and pebble engines, both expiry policies) over small adversarial pools (keys that are prefixes of each other / contain ':' / 0x00 / 0xff / empty key part, empty and binary members, negative and out-of-range indexes, inverted ranges), 15% mutated argument vectors (dropped/duplicated/extended args, huge/negative/non-numeric numbers, over-long keys and sub-keys, malformed keys), random grouping into apply events (sizes 1-36), log timestamps placed before/at/after expiry seconds; 25% of the sessions may repeat or go back in log time, 25% may put apply-failing batchable commands into multi-entry events; shadows: one-entry-per-event, other engine, isReplaying, packed entries; non-trivial = the real code answered without an error class; distinct = distinct op lines"
+DATA_TRUST = ["protocol `data` is oracle-only at this stage: no Lean driver speaks it; the theorems are about abstract models whose codec / batching hypotheses are tied to the code by C12's theorems and by regenerated facts, not by a differential run", 'server layer (namespace lookup, router order, reply type switch, merge dispatch) is re-stated in the harness (marked SERVER-EMU)', 'read paths use the wall clock: expiry instants are kept decades away from the real clock; boundary behaviour is exercised on write paths only']
+
 CHECKS = {
     'C15': dict(
         gens=['Partition'],
@@ -86,6 +89,66 @@ CHECKS = {
         level_text="Theorems, for EVERY delivery sequence over any number of source clusters (no assumption on the sender): applied source indexes are strictly increasing per cluster (at most once, no duplicate effect); the synced position never moves backwards and moves only in a step whose effect ran, to that entry's own position; the position always covers the data; re-delivering ANY part of what was delivered changes neither data nor position (replay idempotence), hence restore-from-snapshot + replay of the tail (or of more than the tail) reproduces the pre-crash pair; per-step exactly-once under a sender that resumes at synced+1. The skip condition and the update guard are regenerated from node/remote_sync_mgr.go (and the gRPC receive filter from server/grpc_api.go is proved to be the same predicate). The model is tied to the real KVNode.applyEntry / RestoreFromSnapshot by differential runs.",
         level_note="state machine effects are abstract; sender behaviour is a hypothesis for 'never skips'; admin override excluded.",
         technique="Lean 4 proof (inductive invariant + replay idempotence over regenerated filter) + differential run of the real apply path",
+    ),
+    'C07': dict(
+        gens=['Ttl'],
+        props='ZanVerif.Props.C07',
+        protos=[dict(name='data', mode='oracle', quick_seeds=1, thorough_seeds=1, classes='(batch|engine|replay|packed)-dependent:')],
+        rule=DATA_RULE,
+        trusted=DATA_TRUST,
+        partial=["C07_batch_independent is proved for the abstract model under 'no batchable command fails at apply time'; the failing case is a known finding", 'wall-clock independence of write paths is checked by the raw-byte comparison of shadows run at different instants only'],
+        assumptions=[],
+        level_text='Theorem: batch independence of the abstract apply-batch model (reads see the store as of batch start; pairwise distinct keys; commands read only their own key) for every command list and start store, with a `decide` witness that the distinct-key hypothesis is needed, and the regenerated batchable command set. On the real code the property is judged by metamorphic shadows on every generated log: one entry per apply event vs random grouping, mem vs pebble, isReplaying on/off, packed entries - comparing every client reply, the logical dump and the physical bytes of the whole engine after every event.',
+        level_note='the abstract batch model is not differentially tied to kvbatchOperator (oracle-only protocol); bitmap/HLL/JSON/geo commands are outside the protocol; AbortBatchForError makes the property false for apply-failing batchable commands (known finding C07-batch-abort)',
+        technique='Lean 4 proof over an abstract batch model + metamorphic exploration of the real apply path',
+    ),
+    'C08': dict(
+        gens=[],
+        props='ZanVerif.Props.C08',
+        protos=[dict(name='data', mode='oracle', quick_seeds=1, thorough_seeds=1, classes='$^')],
+        rule=DATA_RULE,
+        trusted=DATA_TRUST,
+        partial=['everything except hget/hset/hdel', 'duplicate fields inside one command were a genuine defect (fixed) and are outside the model'],
+        assumptions=[],
+        level_text="Theorems (hash slice): refinement of the storage-level hash (size meta + field keys over the sorted reference store, codec abstracted by exactly the facts C12 proves of the real encoders) to the plain redis hash key -> field -> value: HGET reads the abstraction, HSET/HDEL replies are redis's, HSET/HDEL commute with the abstraction, the size meta never shows through. All other types and commands have NO theorem yet and no Go-side oracle: C08 is claimed for this slice only.",
+        level_note="only the hash slice (hget, hset, hdel) is modelled; no differential tie of this model to rockredis yet (the correspondence of the codec is C12's); KV/list/set/zset semantics are not covered by this check",
+        technique="Lean 4 refinement proof (hash slice) over C12's codec facts",
+    ),
+    'C09': dict(
+        gens=[],
+        props='ZanVerif.Props.C09',
+        protos=[dict(name='data', mode='oracle', quick_seeds=1, thorough_seeds=1, classes='count-enum-mismatch:')],
+        rule=DATA_RULE,
+        trusted=DATA_TRUST,
+        partial=['inv preserved by hdel / set / zset / list commands: not yet theorems'],
+        assumptions=[],
+        level_text="Theorem: the hash size-meta invariant (stored size = number of field keys in the collection's range, meta present iff non-empty) over the sorted reference store with the codec abstracted by the facts C12 proves; preserved by HSET (new field and overwrite), for all stores/keys/fields. On the real store the property's equalities (HLEN=|HGETALL|=|HKEYS|=|HVALS|, SCARD=|SMEMBERS|, LLEN=|LRANGE 0 -1|, ZCARD=|ZRANGE|=|ZRANGEBYSCORE -inf +inf|=|ZRANGEBYLEX - +|=|ZREVRANGE|, scores, xKEYEXIST <=> size>0, point lookups) are evaluated through read commands only after EVERY apply event of every generated session.",
+        level_note='invariant proved for HSET only (HDEL/other types: oracle only); oracle-only protocol',
+        technique='Lean 4 invariant proof (hash) + invariant oracle after every apply event on the real store',
+    ),
+    'C10': dict(
+        gens=['Ttl'],
+        props='ZanVerif.Props.C10',
+        protos=[dict(name='data', mode='oracle', quick_seeds=1, thorough_seeds=1, classes='(expired-visible|resurrection|ttl-|early-removal):')],
+        rule=DATA_RULE,
+        trusted=DATA_TRUST,
+        partial=['C10_no_resurrection_partial carries the equal-timestamp proviso (known finding)', 'C10_local_never_early is false on this tree (known finding C10-local-deletion-earliest-ttl); only the oracle covers the local-deletion policy', 'C10_filter_safe (compaction filter) not built'],
+        assumptions=[],
+        level_text="Theorems: the expiry rule and TTL value over the expressions REGENERATED from rockredis/t_ttl_compact.go (expired iff ExpireAt <= floor(ts/1e9), never for ExpireAt=0 or ts=0; TTL = ExpireAt - floor(ts/1e9) and positive iff not expired), for all values; the generation mechanism: dead after expiry, renewal shows exactly the new generation, no resurrection under the proviso 'no stale sub-key of the new generation is stored', and a `decide` witness that the proviso is needed (generation = log timestamp). On the real store: per-command monitors against a never-used key of a scratch store (expired-visible, resurrection), expiry bookkeeping rules (ttl-not-cleared / ttl-wrong / ttl-lost), read-side monitors, and the local-deletion scan monitor (early-removal).",
+        level_note='generation model is abstract (hash-shaped); compaction filter not modelled; read-path expiry only far from the boundary (wall clock)',
+        technique='Lean 4 proof over regenerated expiry arithmetic + generation model; per-command monitors on the real store',
+    ),
+    'C11': dict(
+        gens=['CmdTable'],
+        props='ZanVerif.Props.C11',
+        protos=[dict(name='data', mode='oracle', quick_seeds=1, thorough_seeds=1, classes='(panic|error-changed-state|proposed-and-|no-reply|hang|proposal-count)')],
+        rule=DATA_RULE,
+        trusted=DATA_TRUST,
+        partial=['C11_error_no_effect / C11_next_command_unaffected are oracle-only', 'read commands and merge commands: fuzz only'],
+        assumptions=[],
+        level_text='Theorem (shape safety): for EVERY registered write command (57, table regenerated from node_cmd_reg.go / util.go / the apply handlers on every run) and EVERY argument count, if the leader-side validator lets the command into the log then every constant-index access cmd.Args[i] / cmd.Args[i:] of its apply handler is in range; the extractor summarised every command. Everything beyond argument counts (numeric parses, offsets, sizes, error => nothing changed, nothing leaks into the next command) is judged by the oracle on mutated argument vectors sent the way a client can: real leader-side validation, proposal, real apply, with the physical bytes of the engine compared around every erroring command.',
+        level_note="the extractor understands constant indexes and len guards, not data flow (a negative SETRANGE offset was found by the fuzz, not by the table; fixed); redcon parsing and the server's connection-level recover are outside",
+        technique='Lean 4 proof by whole-table decision lifted to unbounded argc (table regenerated by go/ast extractor) + mutation fuzz with byte-level state comparison',
     ),
 }
 
